@@ -218,6 +218,10 @@ class C16(Prop):
                         viol.append({"oracle": "O-ERR", "signature": "solve-returns-a-number-for-a-no-solution-status:"
                                      + (out.get("transports") or ["?"])[0],
                                      "detail": {"status": op["peer"]["script"]["1"]["status"], "value": val}})
+                    elif out.get("status") == "exc":
+                        viol.append({"oracle": "O-ERR", "signature": "solve-raises-instead-of-returning-none:"
+                                     + str(out.get("exc_type")) + ":" + (out.get("transports") or ["?"])[0],
+                                     "detail": {"status": op["peer"]["script"]["1"]["status"], "msg": out.get("msg")}})
                 elif exp and exp.startswith("none-real") and out.get("ncalls"):
                     # judged only when the real peer itself reported that there is no solution
                     st = ((out.get("seam") or [{}])[0]).get("status")
